@@ -88,6 +88,8 @@ DIRECTED_DSDL = {
         "reg/S.1.0.dsdl": "uint8 x\nreg.V.1.0 v\n@extent 200 * 8\n---\nreg.U.1.0 u\nuint8[<=5] tail\n@sealed\n",
         "reg/X.1.0.dsdl": "@union\nuint8[<=4] arr\nreg.sub.Inner.1.0 comp\nuint8 prim\n@sealed\n",
         "reg/Y.1.0.dsdl": "reg.X.1.0 first\nreg.X.1.0[<=2] xs\nuint8 z\n@sealed\n",
+        "reg/Flags.1.0.dsdl": "uint8 head\nbool[<=200] flags\n@sealed\n",
+        "reg/Bits.1.0.dsdl": "uint3[<=70] trits\nreg.Flags.1.0[<=2] fl\nbool[<=64] tail\n@sealed\n",
         "reg/W.1.0.dsdl": "@union\nuint8 prim\nuint8[<=4] arr\nreg.sub.Inner.1.0 comp\nuint16 prim2\nreg.sub.Inner.1.0[<=3] comps\n@sealed\n",
     },
 }
@@ -108,6 +110,7 @@ def directed_cases(seed: int, tier: str) -> typing.List[dict]:
     out = []
     for cfg in CONFIGS if tier == "quick" else CONFIGS_THOROUGH:
         out.append({"label": "directed-%s" % cfg["name"], "dsdl": DIRECTED_DSDL, "config": cfg, "ops_seed": [seed, PROP, "directed", cfg["name"]]})
+    out.append({"label": "directed-c-override-all-one", "dsdl": DIRECTED_DSDL, "config": [c for c in CONFIGS if c["name"] == "c-override"][0], "ops_seed": [seed, PROP, "directed", "c-override-all-one"], "defs_policy": "all-one"})
     for cfg in CONFIGS if tier == "quick" else CONFIGS_THOROUGH:
         if cfg["name"] in ("c", "cpp-c++14", "cpp-c++17", "cpp-c++17-pmr") or tier != "quick":
             out.append({"label": "directed-big-%s" % cfg["name"], "dsdl": DIRECTED_BIG_DSDL, "config": cfg, "ops_seed": [seed, PROP, "directed-big", cfg["name"]], "n_ops": 300})
@@ -523,7 +526,7 @@ def run_case(case: dict, ctx: dict) -> dict:
         if cfg.get("override_varlen"):
             # the documented per-field capacity override: shrink every variable array of the set to a user capacity
             r0 = Rng(*case.get("ops_seed", [0])).sub("override")
-            defs = case.get("defs") or _override_defs(gen_dir, r0)
+            defs = case.get("defs") or _override_defs(gen_dir, r0, case.get("defs_policy"))
             exec_case["defs"] = defs
         if cfg.get("asserts"):
             defs.append("-DNUNAVUT_ASSERT(x)=assert(x)")
@@ -608,7 +611,7 @@ def run_case(case: dict, ctx: dict) -> dict:
     }
 
 
-def _override_defs(gen_dir: str, r: Rng) -> typing.List[str]:
+def _override_defs(gen_dir: str, r: Rng, policy: typing.Optional[str] = None) -> typing.List[str]:
     """-D<Type>_<field>_ARRAY_CAPACITY_=k for a seeded subset of the variable arrays (k below the DSDL capacity)."""
     defs = []
     pat = re.compile(r"#define (\w+_ARRAY_CAPACITY_)\s+(\d+)U")
@@ -624,8 +627,11 @@ def _override_defs(gen_dir: str, r: Rng) -> typing.List[str]:
                         if ("#ifndef %s" % m.group(1)) in text:
                             names.append((m.group(1), int(m.group(2))))
     for name, cap in sorted(set(names)):
-        if cap > 1 and r.chance(1, 2):
-            defs.append("-D%s=%dU" % (name, r.between(1, cap - 1)))
+        rr = r.sub(name)
+        if policy == "all-one" and cap > 1:
+            defs.append("-D%s=1U" % name)  # every overridable array reduced as far as it goes
+        elif cap > 1 and rr.chance(3, 4):
+            defs.append("-D%s=%dU" % (name, rr.weighted([(1, 2), (max(1, cap // 2), 2), (cap - 1, 1), (rr.between(1, cap - 1), 3)])))
     return defs
 
 
